@@ -167,18 +167,13 @@ unsafe impl<T, N: ArrayLength> GenericSequence<T> for Box<GenericArray<T, N>> {
         F: FnMut(usize) -> T,
     {
         unsafe {
-            use core::{
-                alloc::Layout,
-                mem::{size_of, MaybeUninit},
-                ptr,
-            };
+            use core::mem::MaybeUninit;
 
-            // Box::new_uninit() is nightly-only
-            let ptr: *mut GenericArray<MaybeUninit<T>, N> = if size_of::<T>() == 0 {
-                ptr::NonNull::dangling().as_ptr()
-            } else {
-                alloc::alloc::alloc(Layout::new::<GenericArray<MaybeUninit<T>, N>>()).cast()
-            };
+            // `Box::new_uninit` never requests a zero-sized block, diverts allocation failure
+            // to `handle_alloc_error`, and frees the block again if `f` panics.
+            let mut array = Box::<GenericArray<T, N>>::new_uninit();
+
+            let ptr: *mut GenericArray<MaybeUninit<T>, N> = array.as_mut_ptr().cast();
 
             let mut builder = IntrusiveArrayBuilder::new(&mut *ptr);
 
@@ -193,7 +188,7 @@ unsafe impl<T, N: ArrayLength> GenericSequence<T> for Box<GenericArray<T, N>> {
 
             builder.finish();
 
-            Box::from_raw(ptr.cast()) // IntrusiveArrayBuilder::array_assume_init
+            array.assume_init() // IntrusiveArrayBuilder::array_assume_init
         }
     }
 }
